@@ -74,7 +74,7 @@ dreadtriple_noheader(int *m, int *n, int_t *nonz,
     rewind(fp);  // Move to the start of the input file 
 
 #ifdef EXPAND_SYM
-    new_nonz = 2 * *nonz - *n;
+    new_nonz = 2 * *nonz; /* upper bound: a stored diagonal entry is not mirrored; the exact count is set after reading */
 #else
     new_nonz = *nonz;
 #endif
